@@ -199,6 +199,10 @@ def check(case, stats: Stats):
         text = R.render_file({'vars': [], 'transforms': [], 'rules': prules})
         try:
             eng = obs.load_engine(text, 'most_specific')
+            if nperm % 2 == 0:
+                # the engine has seen another transaction before (no custom fields, no date): what it could not evaluate for THAT one is no fact about this one
+                obs.engine_classify(eng, lang.mk_txn(dict(TXN, field=None, date=None, source='Other', location=None, amount=-3.0)), rows)
+                classes.add('engine_saw_a_bare_transaction_first')
             a = obs.engine_classify(eng, txn, rows)
         except obs.Crash as c:
             raise Violation(f'{c}\n{text}', case, 'crash')
